@@ -119,6 +119,27 @@ def o3_cancel_conn(chk, prog):
     chk.end(ob)
 
 
+@expectation('c18_connect_settings')
+def c18_connect_settings():
+    """Native: real bb8 pools of ServerPool managers against scripted servers: the connection's cleanup switch / cache capacity are the manager's;
+    a manager without plugins sends nothing but its startup to the server although the general [plugins] block enables the prewarmer."""
+    def f(res):
+        for r in res:
+            if 'error' in r or 'panic' in r:
+                return False, 'native: %r' % (r,)
+            bad = []
+            if r.get('cleanup_seen') != r.get('cleanup_given'):
+                bad.append('cleanup_connections given %r, the connection has %r' % (r.get('cleanup_given'), r.get('cleanup_seen')))
+            if r.get('cache_seen') != r.get('cache_given'):
+                bad.append('statement cache size given %r, the connection has %r' % (r.get('cache_given'), r.get('cache_seen')))
+            if r.get('queries_on_plain_connect'):
+                bad.append('a manager without plugins sent %r to its new connection' % (r.get('queries_on_plain_connect'),))
+            if bad:
+                return True, 'native: ' + '; '.join(bad)
+        return False, 'native: %r' % (res,)
+    return f
+
+
 @expectation('c18_connect')
 def c18_connect():
     """Native: a real bb8 pool of ServerPool (min_idle 2) against a scripted PostgreSQL: once the connections are open and nobody uses them,
@@ -134,8 +155,19 @@ def c18_connect():
     return f
 
 
-def o4_connect(chk, prog):
-    """bb8's connect hook: the server connection's entry in the statistics."""
+def startup_param_names(prog):
+    """Parameter names of Server::startup, in order, from the source text (the MIR dump carries no names for arguments)."""
+    for path, text in prog.src.clean.items():
+        if path.endswith('server.rs'):
+            m = re.search(r'pub\s+async\s+fn\s+startup\s*\((.*?)\)\s*->', text, re.S)
+            if m:
+                return [x.split(':')[0].strip() for x in m.group(1).split(',') if ':' in x]
+    return []
+
+
+def o4_connect(chk, prog, props=('C18',)):
+    """bb8's connect hook: the server connection's entry in the statistics (C18); what the new connection is configured with (C02: the
+    cleanup switch, C08: the statement cache size) and which plugins run on it (C20: a mirror's connections run none)."""
     ob = chk.begin('O4-connect', '<ServerPool as ManageConnection>::connect (real coroutine) with Server::startup succeeding or failing (solver\'s choice): the new connection is '
                    'registered exactly once; a connection handed to bb8 is in state idle (it sits in the pool until somebody checks it out); a failed connect leaves nothing registered',
                    {'startup': 'Ok | Err'})
@@ -161,6 +193,8 @@ def o4_connect(chk, prog):
             return Opaque('HookFuture', 'startup')
 
         def poll_hook(ip2, co, ptr):
+            if isinstance(co, Opaque) and co.ty == 'HookFuture' and co.tag == 'ready':
+                return EnumV(BV(64, 0), {'Ready': [co.data]}, 'Poll')
             if isinstance(co, Opaque) and co.ty == 'HookFuture' and co.tag == 'startup':
                 from mirsym.models.util import ok as _ok, err as _err
                 if ip2.choose(2, 'startup_ok') == 1:
@@ -170,7 +204,30 @@ def o4_connect(chk, prog):
                 return EnumV(BV(64, 0), {'Ready': [_err(ip2, ip2.make_enum('Error', 'ServerStartupError', [rstring('refused'), Opaque('ServerIdentifier', 'id')]))]}, 'Poll')
             raise Inconclusive('poll of %r' % (co,))
         ip_.poll_hook = poll_hook
+        prewarmed = []
+
+        def prewarm(c, p):
+            pw = deref(ip_, p) if isinstance(p, Ptr) else p
+            en = pw.fields[0] if isinstance(pw, Agg) else None
+            if not (isinstance(en, BV) and en.concrete and en.v == 0):
+                prewarmed.append(1)
+            from mirsym.models.util import ok as _ok2
+            return Opaque('HookFuture', 'ready', _ok2(ip_, unit()))
+        from checks import fromconfig as FC
+        cfg = FC.base_config(ip_, prog)
+        pnames = prog.src.structs['Plugins']
+
+        def mk_plugins(tag):
+            pw = Agg([BV(1, 1), Seq([rstring('select 1 -- ' + tag)], 'vec')], 'Prewarmer', ['enabled', 'queries'])
+            vals_ = {n: none(ip_) for n in pnames}
+            vals_['prewarmer'] = some(ip_, pw)
+            return Agg([vals_[n] for n in pnames], 'Plugins', list(pnames))
+        # the general [plugins] block enables the prewarmer; whether THIS manager was given plugins is the solver's choice
+        setf(prog, cfg, 'Config', 'plugins', some(ip_, mk_plugins('general')))
+        FC.install(ip_, cfg)
+        own_plugins = ip_.choose(2, 'manager_has_plugins') == 1
         ip_.overrides[:0] = [
+            (re.compile(r'Prewarmer(?:::<.*>|<.*>)?::run$'), prewarm),
             (re.compile(r'^(?:stats::\w+::)?ServerStats::new$'), lambda c, *a: Opaque('ServerStats', 'new')),
             (re.compile(r'^(?:stats::\w+::)?ServerStats::(register|idle|disconnect|login|active|tested)$'), rec),
             (re.compile(r'^(?:server::)?Server::<?.*>?::startup$|^(?:server::)?Server::startup$'), startup),
@@ -180,7 +237,8 @@ def o4_connect(chk, prog):
         names = prog.src.structs['ServerPool']
         vals = {'address': mk_addr(ip_, prog, 0, 1), 'user': Opaque('User', 'u'), 'database': rstring('db'),
                 'client_server_map': Ptr(Cell(Agg([MapV('hashmap')], 'Lock'), 'csmap')), 'auth_hash': Ptr(Cell(Agg([none(ip_)], 'Lock'), 'auth_hash')),
-                'plugins': none(ip_), 'cleanup_connections': BV(1, 1), 'log_client_parameter_status_changes': BV(1, 0), 'prepared_statement_cache_size': BV(64, 0)}
+                'plugins': some(ip_, mk_plugins('own')) if own_plugins else none(ip_), 'cleanup_connections': ip_.fresh(1, 'cleanup_connections'),
+                'log_client_parameter_status_changes': ip_.fresh(1, 'log_parameter_changes'), 'prepared_statement_cache_size': ip_.fresh(64, 'cache_size')}
         missing = [n for n in names if n not in vals]
         if missing:
             raise Inconclusive('ServerPool fields %r unknown to the harness' % (missing,))
@@ -211,7 +269,24 @@ def o4_connect(chk, prog):
             what = 'a connection handed to bb8 is left in state %r (it sits in the pool, nobody is using it): SHOW SERVERS / sv_idle / sv_login / free_servers are wrong until a client has used it' % state
         elif not okr and registered != 0:
             what = 'a failed connect leaves %d entry(ies) registered' % registered
-        if what:
+        # what the connection is configured with: each setting of the manager reaches Server::startup under its own name
+        pn = startup_param_names(prog)
+        a_ = started.get('args')
+        if a_ is not None and len(pn) == len(a_):
+            for nm, prop_, why in (('cleanup_connections', 'C02', 'the connection is reset (or discarded) before it changes hands only if its cleanup switch is the configured one'),
+                                   ('prepared_statement_cache_size', 'C08', 'the connection\'s statement cache has the configured capacity'),
+                                   ('log_client_parameter_status_changes', 'C12', 'parameter-status logging is the configured one')):
+                if nm in pn and prop_ in props:
+                    got, want = a_[pn.index(nm)], vals[nm]
+                    if not isinstance(got, BV) or ip_.is_sat(got.z() != want.z()):
+                        chk.report(ob, '%s/O4/connect-setting/%s' % (prop_, nm), 'ServerPool::connect starts the connection with %s = %r, the pool was configured with %r: %s' % (nm, got, want, why),
+                                   {'setting': nm}, {'commands': [{'op': 'connect_settings'}], 'expect': ['c18_connect_settings']})
+        elif a_ is not None and ('C02' in props or 'C08' in props):
+            raise Inconclusive('Server::startup takes %d arguments, the source names %d' % (len(a_), len(pn)))
+        if 'C20' in props and okr and prewarmed and not own_plugins:
+            chk.report(ob, 'C20/O4/connect-runs-foreign-plugins', 'a manager that was given NO plugins (a mirror\'s pool is built that way) prewarms its new connection with the general [plugins] block: '
+                       'the mirror receives statements that are not copies of anything sent to the mirrored server', {}, {'commands': [{'op': 'connect_settings'}], 'expect': ['c18_connect_settings']})
+        if what and 'C18' in props:
             chk.report(ob, 'C18/O4/connect-state', '%s (statistics calls: %r)' % (what, calls), {'calls': calls}, {'commands': [{'op': 'connect_states'}], 'expect': ['c18_connect']})
         if len(ob.samples) < 2:
             ob.samples.append({'startup_ok': okr, 'calls': list(calls)})
